@@ -95,6 +95,8 @@ def classify_cond(test, tol, num):
             return "other_species"
         if isinstance(test.ops[0], ast.NotEq) and "len(" in norm(test.left) and norm(test.comparators[0]) == "0":  # emptiness normal form of the model
             return "found_any"
+        if isinstance(test.ops[0], ast.Eq) and "len(" in norm(test.left) and norm(test.comparators[0]) == "0":
+            return "found_none"
     return None
 
 
@@ -192,6 +194,8 @@ def r16_1(rep, M, rid, region=False):
                 k, pol = "within", not pol
             if k == "other_species":
                 k, pol = "same_species", not pol
+            if k == "found_none":
+                k, pol = "found_any", not pol
             kinds[k] = pol
         m = [e for e in effects if e[0] == "append" and e[1] == L_MATCH]
         s = [e for e in effects if e[0] == "append" and e[1] == L_SUB]
@@ -206,7 +210,11 @@ def r16_1(rep, M, rid, region=False):
         same = kinds.get("same_species")
         want = ("match" if within and same else "substitution" if within and same is False else "vacancy")
         got = [k for k, b in (("match", is_match), ("substitution", is_sub), ("vacancy", is_vac)) if b]
-        if got != [want]:
+        if region and is_match == (want == "match"):
+            rep.ok(rid, f"get_matches path [{desc}] -> {'match' if is_match else 'no match'}")
+            if want != "match":
+                continue
+        elif got != [want]:
             rep.violation(rid, f"get_matches path [{desc}]", f"classified as {got or ['nothing']}, required exactly [{want}] (match iff within "
                           "tolerance and same species, substitution iff within tolerance and other species, vacancy otherwise)", M.where(GM, loop))
             continue
@@ -328,8 +336,16 @@ def guards_of_match(M, fq, operator_class=True):
     tol = M.params(fq)[4]
     loop = next(lp for lp in fn.body if isinstance(lp, ast.For))
     num = [x.id for x in ast.walk(loop.target) if isinstance(x, ast.Name)][-1]
-    kinds = sorted(((classify_cond(t.test, tol, num) or norm(t.test)) + (":" + type(t.test.ops[0]).__name__ if isinstance(t.test, ast.Compare) and operator_class else ""), pol)
-                   for t, pol in conds if isinstance(t, ast.If))
+    kinds = []
+    for t, pol in conds:
+        if not isinstance(t, ast.If):
+            continue
+        k = classify_cond(t.test, tol, num) or norm(t.test)
+        opc = type(t.test.ops[0]).__name__ if isinstance(t.test, ast.Compare) else ""
+        if k == "found_none":          # `len(x) == 0` false  ==  `len(x) != 0` true
+            k, pol, opc = "found_any", not pol, "NotEq"
+        kinds.append((k + (":" + opc if opc and operator_class else ""), pol))
+    kinds.sort()
     return kinds, attr_root(fn, st[0].value)
 
 
